@@ -394,6 +394,9 @@ class Histogram1D(ObjectWithBinning, HistogramBase):
         if np.isscalar(value) and np.isnan(value):
             # Same as in construction and fill_n: NaN's are skipped
             return None
+        if isinstance(weight, np.generic):
+            weight = weight.item()  # (Narrow numpy types would be squared in their own range)
+        weight2 = weight**2  # Whatever can fail, fails before anything is changed
         self._coerce_dtype(type(weight))
         if self._binning.is_adaptive():
             bin_map = self._binning.force_bin_existence(value)
@@ -411,10 +414,8 @@ class Histogram1D(ObjectWithBinning, HistogramBase):
             if self.keep_missed:
                 self.overflow += weight
         else:
-            self._frequencies[ixbin] += weight
-            self._errors2[ixbin] += weight**2
             try:
-                self._stats = dataclasses.replace(
+                stats = dataclasses.replace(
                     self.statistics,
                     weight=self.statistics.weight + weight,
                     sum=self.statistics.sum + weight * value,
@@ -425,7 +426,12 @@ class Histogram1D(ObjectWithBinning, HistogramBase):
                 )
             except OverflowError:
                 warnings.warn("Overflow when updating statistics.")
-                self._stats = INVALID_STATISTICS
+                stats = INVALID_STATISTICS
+            frequency = self._frequencies[ixbin] + weight
+            error2 = self._errors2[ixbin] + weight2
+            self._frequencies[ixbin] = frequency
+            self._errors2[ixbin] = error2
+            self._stats = stats
 
         return ixbin
 
